@@ -506,10 +506,19 @@ var c01gens = map[string]func(t *rapid.T) c01case{
 		year := rapid.IntRange(1904, 2100).Draw(t, "year")
 		secs := rapid.Int64Range(0, 365*24*3600-1).Draw(t, "secs")
 		ns := rapid.IntRange(0, 999000000).Draw(t, "ns") // sub-second part; the last millisecond is left out: float rounding of Sub().Seconds() there is not a layout question
-		tm := time.Date(year, 1, 1, 0, 0, 0, ns, time.UTC).Add(time.Duration(secs) * time.Second)
+		// the host's time zone: a Hotline date counts the seconds since the year began on the host's clock, so the same
+		// wall-clock reading encodes to the same bytes in every zone (fixed offsets from -12:00 to +14:00 in quarter hours)
+		zone := time.FixedZone("verif", 900*rapid.IntRange(-48, 56).Draw(t, "zoneQuarterHours"))
+		tm := time.Date(year, 1, 1, 0, 0, 0, ns, zone).Add(time.Duration(secs) * time.Second)
 		want := hlref.EncodeDate(year, 0, uint32(secs))
 		return c01case{kind: "date", want: want[:], varLen: 1,
-			mk: func() io.Reader { d := hotline.NewTime(tm); return bytes.NewReader(d[:]) }}
+			mk: func() io.Reader {
+				old := time.Local
+				time.Local = zone
+				defer func() { time.Local = old }()
+				d := hotline.NewTime(tm)
+				return bytes.NewReader(d[:])
+			}}
 	},
 	"filelist": func(t *rapid.T) c01case {
 		// The file-list records as the library builds them from a directory (GetFileNameList): every record must
